@@ -321,6 +321,28 @@ func (fe *FE) runHookClauses(st *State, oc *OnCall, c *Ctx, phase, guard, site s
 			}
 			c.what = "oncall " + cl.Kind + " " + cl.Var
 			v := c.eval(cl.E)
+			if lb := strings.Index(cl.Var, "["); lb > 0 && strings.HasSuffix(cl.Var, "]") {
+				// ghost attribute update: NAME[objexpr] := value
+				ie, err := ParseExpr(cl.Var[lb+1 : len(cl.Var)-1])
+				if err != nil {
+					fe.errorf("bad ghost attribute target %q", cl.Var)
+					continue
+				}
+				iv := c.eval(ie)
+				ref, ok := fe.asRef(iv)
+				if !ok {
+					fe.errorf("ghost attribute target %q is not a reference", cl.Var)
+					continue
+				}
+				v = c.coerceLit(v, SInt)
+				name := "G_" + strings.TrimSpace(cl.Var[:lb])
+				val := v.T
+				if guard != "true" {
+					val = ite(guard, v.T, sel(fe.heapTerm(st, name, arraySort([]string{SInt}, SInt)), ref))
+				}
+				fe.ghostArrSet(st, name, ref, val, SInt)
+				continue
+			}
 			old, ok := st.ghosts[cl.Var]
 			if !ok {
 				fe.errorf("oncall update of undeclared ghost %s", cl.Var)
@@ -448,6 +470,7 @@ func (fe *FE) applyContract(st *State, ins ssa.Instruction, ci *callInfo, res ss
 		st.assume("(> " + results[0].T + " " + prevCnt + ")")
 	}
 	cc.result = results
+	cc.freshBase = prevCnt
 	if con.IsTask || len(con.Ghosts) > 0 {
 		taskGhosts = map[string]Val{}
 		updated := map[string]bool{}
@@ -582,6 +605,17 @@ func (fe *FE) ghostArrAdd(st *State, name, idx, delta string) {
 }
 
 func (fe *FE) ghostArrSet(st *State, name, idx, val, elemSort string) {
+	if name == "G_held" {
+		seen := false
+		for _, l := range st.locksTouched {
+			if l == idx {
+				seen = true
+			}
+		}
+		if !seen {
+			st.locksTouched = append(st.locksTouched, idx)
+		}
+	}
 	sortA := arraySort([]string{SInt}, elemSort)
 	arr := fe.heapTerm(st, name, sortA)
 	n := fe.newConst(st, name, sortA)
@@ -629,6 +663,21 @@ func (fe *FE) havocItem(st *State, cc *Ctx, it, callee string) []string {
 	case it == "locks":
 		fe.havocHeap(st, "G_held")
 		return []string{"G_held"}
+	case strings.HasPrefix(it, "elemsof("):
+		t := fe.V.resolveType(it[8:len(it)-1], cc.pkg)
+		if t == nil {
+			fe.errorf("modifies %s: cannot resolve type", it)
+			return nil
+		}
+		var names []string
+		for _, c := range fe.components(t) {
+			n := elemBase(t) + c.suffix
+			fe.heapSort(n, arraySort([]string{SInt, SInt}, c.sort))
+			fe.frameWholeOb(st, n, "call to "+callee)
+			fe.havocHeap(st, n)
+			names = append(names, n)
+		}
+		return names
 	case strings.HasPrefix(it, "gset("):
 		inner := it[5 : len(it)-1]
 		parts := splitTop(inner)
@@ -854,14 +903,19 @@ func (fe *FE) execNative(st *State, ins ssa.Instruction, callee *ssa.Function, c
 		held := sel(fe.heapTerm(st, "G_held", arraySort([]string{SInt}, SBool)), m)
 		fe.addOb(st, "lock", "not-held@"+site, nil, not(held), "Lock of a mutex this activation already holds would deadlock")
 		fe.ghostArrSet(st, "G_held", m, "true", SBool)
-		fe.onAcquire(st, m)
+		fe.onAcquire(st, m, site)
+		fe.runHooks(st, fe.matchHooks(ci, mode), ci, "after", nil, nil, site)
 		return true, true
 	case "(*sync.Mutex).Unlock", "(*sync.RWMutex).Unlock":
 		m, _ := fe.asRef(ci.args[0])
 		held := sel(fe.heapTerm(st, "G_held", arraySort([]string{SInt}, SBool)), m)
 		fe.addOb(st, "lock", "held-at-unlock@"+site, nil, held, "Unlock of a mutex that is not held is a fatal error")
+		fe.runHooks(st, fe.matchHooks(ci, mode), ci, "before", nil, nil, site)
+		fe.onRelease(st, m, site)
 		fe.ghostArrSet(st, "G_held", m, "false", SBool)
 		return true, true
+	case "(*github.com/antlr/antlr4/runtime/Go/antlr.ParseTreeWalker).Walk":
+		return true, fe.execAntlrWalk(st, ins, ci, site)
 	case "fmt.Sprintf", "fmt.Errorf", "errors.New":
 		return true, fe.execFmt(st, ins, callee, ci, res, site, full)
 	case "sort.SliceStable", "sort.Slice":
@@ -915,7 +969,79 @@ func (fe *FE) execNative(st *State, ins ssa.Instruction, callee *ssa.Function, c
 
 func (fe *FE) sameRef(st *State, a, b string) bool { return a == b }
 
-func (fe *FE) onAcquire(st *State, m string) {}
+// lockOwner: m is `(sub_T_lock owner)` for a lock field with a declared monitor invariant.
+func (fe *FE) lockOwner(m string) (*lockInvInfo, string) {
+	if !strings.HasPrefix(m, "(sub_") {
+		return nil, ""
+	}
+	i := strings.Index(m, " ")
+	if i < 0 {
+		return nil, ""
+	}
+	fn := m[1:i]
+	li := fe.V.lockInv[fn]
+	if li == nil {
+		return nil, ""
+	}
+	return li, strings.TrimSuffix(m[i+1:], ")")
+}
+
+// onAcquire: other goroutines may have changed the state this lock protects; it satisfies the lock's invariant.
+func (fe *FE) onAcquire(st *State, m, site string) {
+	li, owner := fe.lockOwner(m)
+	if li == nil || isFreshRefTerm(owner) {
+		return
+	}
+	for _, g := range li.guarded {
+		for _, c := range fe.components(g.t) {
+			name := g.base + c.suffix
+			sortA := arraySort([]string{SInt}, c.sort)
+			arr := fe.heapTerm(st, name, sortA)
+			fresh := fe.newConst(st, "acq", c.sort)
+			n := fe.newConst(st, name, sortA)
+			st.assume(eq(n, "(store "+arr+" "+owner+" "+fresh+")"))
+			st.heap[name] = n
+		}
+		loc := &Loc{Base: g.base, Idx: []string{owner}, T: g.t}
+		v := fe.load(st, loc)
+		// contents reachable through a guarded slice / map are shared too
+		if v.Kind == VSlice {
+			et := g.t.Underlying().(*types.Slice).Elem()
+			for _, c := range fe.components(et) {
+				fe.havocRowNoFrame(st, elemBase(et)+c.suffix, arraySort([]string{SInt}, c.sort), v.Arr)
+			}
+		}
+	}
+	if li.inv != nil {
+		c := &Ctx{fe: fe, st: st, binds: map[string]Val{"self": scalar(owner, SInt, types.NewPointer(li.ownerT))}, params: map[string]Val{}, pkg: pkgOfType(li.ownerT)}
+		fe.assumeExpr(st, c, li.inv.E, "lock invariant")
+	}
+}
+
+// onRelease: the lock's invariant must hold again.
+func (fe *FE) onRelease(st *State, m, site string) {
+	li, owner := fe.lockOwner(m)
+	if li == nil || li.inv == nil || isFreshRefTerm(owner) {
+		return
+	}
+	c := &Ctx{fe: fe, st: st, binds: map[string]Val{"self": scalar(owner, SInt, types.NewPointer(li.ownerT))}, params: map[string]Val{}, pkg: pkgOfType(li.ownerT)}
+	c.what = "lock invariant at unlock"
+	c.side = nil
+	t := c.boolTerm(c.eval(li.inv.E))
+	for _, s := range c.side {
+		st.assume(s)
+	}
+	fe.addOb(st, "lockinv", "unlock@"+site, nil, t, li.inv.Src)
+}
+
+func (fe *FE) havocRowNoFrame(st *State, name, rowSort, idx string) {
+	sortA := "(Array Int " + rowSort + ")"
+	arr := fe.heapTerm(st, name, sortA)
+	fresh := fe.newConst(st, "hv", rowSort)
+	n := fe.newConst(st, name, sortA)
+	st.assume(eq(n, "(store "+arr+" "+idx+" "+fresh+")"))
+	st.heap[name] = n
+}
 
 // ---------------------------------------------------------------------------
 // builtins
@@ -1447,5 +1573,134 @@ func (fe *FE) execFmt(st *State, ins ssa.Instruction, callee *ssa.Function, ci *
 		st.vals[res] = out
 	}
 	fe.runHooks(st, hooks, ci, "after", []Val{out}, nil, site)
+	return true
+}
+
+// execAntlrWalk: assumed model of lexing+parsing+walking a rule text (C10, C08). Derived per function from the SSA
+// def-use chains: the text is the argument of antlr.NewInputStream; GengineErrorListener objects attached to a
+// recognizer derived from NewgengineLexer / NewgengineParser are the lexer / parser listeners; the tree listener
+// is the GengineParserListener passed to Walk, built over a KnowledgeContext kc. Effects at the Walk call:
+//   lexer listener  el: len(el.GrammarErrors) > 0 <=> LexErrs(text)       (only if one is attached)
+//   parser listener el: len(el.GrammarErrors) > 0 <=> SynErrs(text)
+//   tree listener   pl: len(pl.ParseErrors)   > 0 <=> SemErrs(text)
+//   kc.RuleEntities: when no error of any kind: every entry is a non-nil entity whose RuleName is its key (duplicate
+//   names are a SemErr), and there is at least one rule (grammar: primary = ruleEntity+)
+func (fe *FE) execAntlrWalk(st *State, ins ssa.Instruction, ci *callInfo, site string) bool {
+	fe.usedExt["extern antlr pipeline (native model execAntlrWalk: error lists reflect LexErrs/SynErrs/SemErrs of the text for exactly the attached listeners; an error-free walk leaves a non-empty map of non-nil entities keyed by their names)"] = true
+	var text string
+	lexLis, parLis := "", ""
+	origin := func(v ssa.Value) string {
+		for i := 0; i < 12 && v != nil; i++ {
+			switch x := v.(type) {
+			case *ssa.UnOp:
+				v = x.X
+			case *ssa.FieldAddr:
+				v = x.X
+			case *ssa.Call:
+				if sc := x.Call.StaticCallee(); sc != nil {
+					return sc.Name()
+				}
+				return ""
+			case *ssa.MakeInterface:
+				v = x.X
+			case *ssa.ChangeInterface:
+				v = x.X
+			default:
+				return ""
+			}
+		}
+		return ""
+	}
+	for _, b := range fe.Fn.Blocks {
+		for _, in := range b.Instrs {
+			call, ok := in.(*ssa.Call)
+			if !ok {
+				continue
+			}
+			sc := call.Call.StaticCallee()
+			if sc == nil {
+				continue
+			}
+			switch sc.Name() {
+			case "NewInputStream":
+				if v, ok := st.vals[call.Call.Args[0]]; ok {
+					text = v.T
+				} else {
+					text = fe.valOf(st, call.Call.Args[0]).T
+				}
+			case "AddErrorListener":
+				rec := origin(call.Call.Args[0])
+				mi, ok := call.Call.Args[1].(*ssa.MakeInterface)
+				if !ok {
+					continue
+				}
+				lv, ok := st.vals[mi.X]
+				if !ok || lv.Kind != VScalar {
+					continue
+				}
+				switch rec {
+				case "NewgengineLexer":
+					lexLis = lv.T
+				case "NewgengineParser":
+					parLis = lv.T
+				}
+			}
+		}
+	}
+	if text == "" {
+		fe.errorf("antlr walk: cannot find the parsed text")
+		return false
+	}
+	elT := fe.V.resolveType("iparser.GengineErrorListener", nil)
+	plT := fe.V.resolveType("iparser.GengineParserListener", nil)
+	kcT := fe.V.resolveType("base.KnowledgeContext", nil)
+	if elT == nil || plT == nil || kcT == nil {
+		fe.errorf("antlr walk: types not found")
+		return false
+	}
+	setErrs := func(structT types.Type, field, obj, pred string) {
+		ft := fieldType(structT, field)
+		loc := &Loc{Base: fieldBase(structT, field), Idx: []string{obj}, T: ft}
+		fe.store(st, loc, fe.freshVal(st, "errs", ft))
+		v := fe.load(st, loc)
+		st.assume("(= (> " + v.Len + " 0) (" + pred + " " + text + "))")
+	}
+	if lexLis != "" {
+		setErrs(elT, "GrammarErrors", lexLis, "LexErrs")
+	}
+	if parLis != "" {
+		setErrs(elT, "GrammarErrors", parLis, "SynErrs")
+	}
+	// tree listener: second argument of Walk
+	call := ins.(ssa.CallInstruction).Common()
+	mi, ok := call.Args[1].(*ssa.MakeInterface)
+	if !ok {
+		fe.errorf("antlr walk: listener argument shape")
+		return false
+	}
+	pl := fe.valOf(st, mi.X)
+	setErrs(plT, "ParseErrors", pl.T, "SemErrs")
+	// the container being filled
+	kcv := fe.load(st, &Loc{Base: fieldBase(plT, "KnowledgeContext"), Idx: []string{pl.T}, T: fieldType(plT, "KnowledgeContext")})
+	reT := fieldType(kcT, "RuleEntities")
+	re := fe.load(st, &Loc{Base: fieldBase(kcT, "RuleEntities"), Idx: []string{kcv.T}, T: reT})
+	mt := reT.Underlying().(*types.Map)
+	db, vb, lb := mapBases(mt)
+	fe.havocRowNoFrame(st, db, "(Array Str Bool)", re.T)
+	fe.havocRowNoFrame(st, vb, "(Array Str Int)", re.T)
+	fe.havocRowNoFrame(st, lb, SInt, re.T)
+	dom := sel(fe.heapTerm(st, db, arraySort([]string{SInt, SStr}, SBool)), re.T)
+	val := sel(fe.heapTerm(st, vb, arraySort([]string{SInt, SStr}, SInt)), re.T)
+	ln := sel(fe.heapTerm(st, lb, arraySort([]string{SInt}, SInt)), re.T)
+	fe.mapLenAxioms(st, mt, re.T, ln)
+	reEnt := fe.V.resolveType("base.RuleEntity", nil)
+	nameArr := fe.heapTerm(st, fieldBase(reEnt, "RuleName"), arraySort([]string{SInt}, SStr))
+	prev := fe.bumpCnt(st)
+	ok0 := fmt.Sprintf("(and (not (LexErrs %s)) (not (SynErrs %s)) (not (SemErrs %s)))", text, text, text)
+	if lexLis == "" {
+		ok0 = fmt.Sprintf("(and (not (SynErrs %s)) (not (SemErrs %s)))", text, text)
+	}
+	st.assume(fmt.Sprintf("(=> %s (forall ((k Str)) (! (=> (select %s k) (and (> (select %s k) %s) (<= (select %s k) %s) (= (select %s (select %s k)) k))) :pattern ((select %s k)))))", ok0, dom, val, prev, val, fe.cntTerm(st), nameArr, val, val))
+	st.assume(fmt.Sprintf("(=> (and (not (SynErrs %s)) (not (SemErrs %s))) (> %s 0))", text, text, ln))
 	return true
 }
